@@ -75,8 +75,12 @@ Lemma repaired_f6 : holds_b r_f6 = true. Proof. vm_compute. reflexivity. Qed.
 Lemma repaired_f9 : holds_b w_f9 = true. Proof. vm_compute. reflexivity. Qed.
 (* the model variant of the code before 7813a3d (what the harness compares with when it finds that
    behaviour in the tree) breaks the property on the same history *)
-Lemma prerepair_f9 : match run_old init w_f9 with Some s => inv_all s = false | None => False end.
+Definition prerepair_refutes (w : list op) : Prop :=
+  match run_old init w with Some s => inv_all s = false | None => False end.
+Lemma prerepair_f9 : prerepair_refutes w_f9.
 Proof. vm_compute. reflexivity. Qed.
+Lemma f9_then_and_now : holds_b w_f9 = true /\ prerepair_refutes w_f9.
+Proof. split; [exact repaired_f9|exact prerepair_f9]. Qed.
 
 Lemma inplace_holds : holds_b ex_inplace = true /\
   match run init ex_inplace with
